@@ -12,17 +12,27 @@
    (flags)           readonly / constant in the report <-> change refused with ReadOnly; constant implies readonly;
                      a constant parameter reads as exactly the described constant
                                                     -- C06_flags_predict, C06_constant_is_readonly, C06_read_described
+   (read)            what a read method obtained from the hardware is converted by the DESCRIBED datatype (the instance's
+                     Parameter, class datatype + configured datatype properties): reply and updates carry the converted value,
+                     a value that datatype refuses gives an error reply and error updates only        -- C06_read_described
    (nothing undescribed) read / change / do / activate of a name the report does not list is refused with NoSuch..., state
                      unchanged, no update, in every reachable state                              -- C06_nothing_undescribed
-   (interface class / features) functions of the supplied MRO                                     -- C06_interface_and_features
+   (interface class / features / implementation) functions of the class (supplied MRO, qualified name), for EVERY
+                     configuration, also one that names these module properties itself        -- C06_interface_and_features
    (main unit)       after substitution no described unit contains $ when the main unit has none  -- C06_main_unit_substituted
-   (strict JSON, emitted values importable) not modelled: checked by the direct oracle on every generated case; the NaN
+   (emitted values)  every update any operation emits (change, hardware read, driver assignment, activate snapshot) belongs to a
+                     described parameter and carries the error mark or the export, by the DESCRIBED datatype, of a value that
+                     this datatype's conversion or validation produced; the same for the cached value a read answers
+                                                    -- C06_emitted_values_converted, C06_cached_values_converted
+                     (that a client's import_value takes every such export back is the round trip of C02, not restated here;
+                     the direct oracle checks it with the real get_datatype on every generated case)
+   (strict JSON)     not modelled: checked by the direct oracle on every generated case; the NaN
                      constant that breaks strict JSON (open finding) is reproduced by C06_refuted_nan_constant_described
    The former guards (_except_cfg_export, _partial) are gone: the defects were repaired in /repo (8235152, 0f999c0).         *)
 From Coq Require Import ZArith NArith Bool List.
 Import ListNotations.
 Require Import FV.Gen.C06 FV.Base.Util FV.Base.F64 FV.Base.PyVal FV.C01.Model FV.C06.Model FV.C06.Lemmas FV.C06.LemmasBuild
-  FV.C06.LemmasMain FV.C06.Refuted.
+  FV.C06.LemmasMain FV.C06.LemmasValues FV.C06.Refuted.
 
 Theorem C06_source_facts :
   features_from_direct_feature_bases = true /\ fixexport_shape = true /\
@@ -30,7 +40,8 @@ Theorem C06_source_facts :
   main_unit_after_cfg_and_dollar_replace = true /\ export_properties_nondefault_rule = true /\
   property_export_table = true /\ for_export_shapes = true /\ export_accessibles_shape = true /\
   change_path_shape = true /\ read_path_shape = true /\ do_path_shape = true /\ activate_path_shape = true /\
-  announce_update_shape = true /\ interface_classes_limit = 1%nat /\ finish_calls_class_constant = 3%nat.
+  announce_update_shape = true /\ access_wrappers_use_instance_datatype = true /\ auto_props_after_cfg = true /\
+  interface_classes_limit = 1%nat /\ finish_calls_class_constant = 3%nat.
 Proof. repeat split; reflexivity. Qed.
 
 (* lists_module mc e: e is named like mc, the list of its accessible keys equals the list of wire names of the accessibles of
@@ -63,7 +74,7 @@ Theorem C06_nothing_undescribed : forall n s0 E ops m w,
   build n = Ok s0 -> well_configured n ->
   let s := run E s0 ops in
   described s m w = None ->
-  refused (do_read s m w) /\
+  (forall tok, exists r, do_read s m w tok = (s, r, []) /\ refused r) /\
   (forall j, exists r, do_change E s m w j = (s, r, []) /\ refused r) /\
   (forall arg, refused (do_do E s m w arg)) /\
   (exists r, do_activate s (Some (m, Some w)) = (s, r, []) /\ refused r) /\
@@ -98,16 +109,57 @@ Theorem C06_constant_is_readonly : forall n s0 E ops m w g v pd c,
   described (run E s0 ops) m w = Some (DP g v pd) -> pd_constant pd = Some c -> pd_readonly pd = true.
 Proof. exact constant_is_readonly. Qed.
 
-Theorem C06_read_described : forall n s0 E ops m w g v pd,
+(* param_at s m w: the Parameter object of the instance behind the described name; value_reply d x = the reply [export d x, {}];
+   value_body d x = the body of a value update (export d x).  For a parameter whose class has a read method (p_hw = the
+   hardware register) the converter is pd_dt pd, the datatype the report shows - not the datatype of the class. *)
+Theorem C06_read_described : forall n s0 E ops m w g v pd tok,
   build n = Ok s0 -> well_configured n ->
   let s := run E s0 ops in
   described s m w = Some (DP g v pd) ->
   (pd_constant pd = None ->
-     exists value, do_read s m w = reply_of (dt_export (pd_dt pd) value >>= fun x => Ok (with_qualifiers x))) /\
-  (forall c, pd_constant pd = Some c -> do_read s m w = RpData (with_qualifiers c)).
+     exists p, param_at s m w = Some p /\ p_dt p = pd_dt pd /\
+       match p_hw p with
+       | None => do_read s m w tok = (s, value_reply (pd_dt pd) (p_value p), [])
+       | Some hw =>
+           match dt_call (pd_dt pd) hw with
+           | Ok nv => exists s' us, do_read s m w tok = (s', value_reply (pd_dt pd) nv, us) /\
+                                    Forall (fun u => u_body u = value_body (pd_dt pd) nv) us
+           | Err e => exists s' us, do_read s m w tok = (s', RpErr (RExc e), us) /\ Forall (fun u => u_body u = UE) us
+           end
+       end) /\
+  (forall c, pd_constant pd = Some c -> do_read s m w tok = (s, RpData (with_qualifiers c), [])).
 Proof. exact read_described. Qed.
 
-Theorem C06_interface_and_features : forall mro,
+(* attrs_distinct n: attribute names are distinct within a class (keys of the python dict cls.accessibles).
+   produced_by d y: y is an output of dt_call d (the datatype's __call__) or of dt_validate d (its validate). *)
+Theorem C06_cached_values_converted : forall n s0 E ops m w g v pd,
+  build n = Ok s0 -> well_configured n -> attrs_distinct n ->
+  let s := run E s0 ops in
+  described s m w = Some (DP g v pd) ->
+  exists p, param_at s m w = Some p /\ p_dt p = pd_dt pd /\
+            (p_err p = None -> produced_by (pd_dt pd) (p_value p)).
+Proof. exact cached_values_converted. Qed.
+
+Theorem C06_emitted_values_converted : forall n s0 E ops o,
+  build n = Ok s0 -> well_configured n -> attrs_distinct n ->
+  let s := run E s0 ops in
+  let s' := fst (fst (step E s o)) in
+  Forall (fun u => exists w g v pd p,
+            u_wire u = Some w /\ described s' (u_mod u) w = Some (DP g v pd) /\ param_at s' (u_mod u) w = Some p /\
+            p_dt p = pd_dt pd /\
+            u_body u = match p_err p with Some _ => UE | None => value_body (pd_dt pd) (p_value p) end /\
+            (p_err p = None -> produced_by (pd_dt pd) (p_value p)))
+         (snd (step E s o)).
+Proof. exact emitted_values_converted. Qed.
+
+(* first part: n ranges over all configurations, mc_cfg_auto mc (what the configuration of the module says about
+   implementation / interface_classes / features) is arbitrary and does not occur in the conclusion; E ops: any history *)
+Theorem C06_interface_and_features :
+  (forall n s0 E ops, build n = Ok s0 ->
+     Forall2 (fun mc e => md_impl (snd e) = mc_impl mc /\ md_ifaces (snd e) = interface_classes (mc_mro mc) /\
+                          md_features (snd e) = features_of (mc_mro mc))
+             (filter mc_export n) (describe (run E s0 ops))) /\
+  forall mro,
   length (interface_classes mro) <= 1 /\
   (forall c, In c (interface_classes mro) -> mem_str c secop_base_classes = true /\ In c (map fst mro)) /\
   (interface_classes mro = [] <-> forall c, In c (map fst mro) -> mem_str c secop_base_classes = false) /\
@@ -115,6 +167,7 @@ Theorem C06_interface_and_features : forall mro,
      exists pre post, map fst mro = pre ++ c :: post /\ forall x, In x pre -> mem_str x secop_base_classes = false) /\
   (forall f, In f (features_of mro) <-> In (f, true) mro).
 Proof.
+  split; [intros n s0 E ops H; rewrite stable; apply auto_props_described; auto|].
   intros mro. destruct (interface_classes_spec mro) as (H1 & H2 & H3).
   repeat split; try apply H1; try apply H2; try apply H3; auto.
   - apply interface_class_is_first.
@@ -139,15 +192,15 @@ Proof. exact refuted_nan_constant_described. Qed.
 (* regression examples: the configurations that witnessed the repaired defects now behave as the property demands *)
 Example C06_repaired_constant_read :
   built n_const = true /\
-  reply_eq_data (do_read (state_of n_const) s_m s_ufoo) (with_qualifiers (PFloat two_half)) = true.
+  reply_eq_data (reply3 (do_read (state_of n_const) s_m s_ufoo tok1)) (with_qualifiers (PFloat two_half)) = true.
 Proof. split; vm_compute; reflexivity. Qed.
 Example C06_repaired_cfg_export :
   built n_hidden = true /\ described (state_of n_hidden) s_m s_ufoo = None /\
-  rerr_is (do_read (state_of n_hidden) s_m s_ufoo) RNoPar = true /\
+  rerr_is (reply3 (do_read (state_of n_hidden) s_m s_ufoo tok1)) RNoPar = true /\
   rerr_is (reply3 (do_activate (state_of n_hidden) (Some (s_m, Some s_ufoo)))) RNoPar = true /\
   built n_renamed = true /\ is_some (described (state_of n_renamed) s_m s_baz) = true /\
-  is_data (do_read (state_of n_renamed) s_m s_baz) = true /\
-  rerr_is (do_read (state_of n_renamed) s_m [95; 98; 97; 114]%N) RNoPar = true.
+  is_data (reply3 (do_read (state_of n_renamed) s_m s_baz tok1)) = true /\
+  rerr_is (reply3 (do_read (state_of n_renamed) s_m [95; 98; 97; 114]%N tok1)) RNoPar = true.
 Proof. repeat split; vm_compute; reflexivity. Qed.
 Example C06_repaired_collision : built n_collision = false.
 Proof. vm_compute; reflexivity. Qed.
@@ -156,17 +209,57 @@ Proof. vm_compute; reflexivity. Qed.
 Definition demo : list mcfg :=
   [mk_mod [mk_par s_foo (TInt 0 10) ExTrue None false None (Some (PInt 3));
            mk_par s_bar dbl (ExName s_baz) None true None (Some (PInt 1))]].
-Example C06_demo_well_configured : built demo = true /\ well_configured demo.
+Example C06_demo_well_configured : built demo = true /\ well_configured demo /\ attrs_distinct demo.
 Proof.
-  split; [vm_compute; reflexivity|]. repeat constructor. simpl. tauto.
+  split; [vm_compute; reflexivity|]. split; [repeat constructor; simpl; tauto|].
+  repeat constructor; simpl; intuition discriminate.
 Qed.
 Example C06_demo_run :
   is_data (reply3 (do_change E0 (state_of demo) s_m s_ufoo (PInt 7))) = true /\
   rerr_is (reply3 (do_change E0 (state_of demo) s_m s_ufoo (PInt 11))) (RExc ERange) = true /\
   rerr_is (reply3 (do_change E0 (state_of demo) s_m s_baz (PInt 1))) RReadOnly = true /\
-  rerr_is (do_read (state_of demo) s_m s_bar) RNoPar = true /\
+  rerr_is (reply3 (do_read (state_of demo) s_m s_bar tok1)) RNoPar = true /\
   is_some (described (state_of demo) s_m s_ufoo) = true /\ described (state_of demo) s_m s_bar = None.
 Proof. repeat split; vm_compute; reflexivity. Qed.
+
+(* non-vacuity of the read clause: the class declares StringType(maxchars=32), the configuration says maxchars=8 (so the
+   instance datatype and the report say 8); the hardware delivers 3 characters, then 16 *)
+Definition s_lbl : str := [108; 98; 108]%N.
+Definition s_ulbl : str := [95; 108; 98; 108]%N.
+Definition str16 : pyval := PStr [115; 101; 110; 115; 111; 114; 45; 104; 101; 97; 100; 45; 48; 56; 49; 53]%N.
+Definition n_narrow : list mcfg :=
+  [mk_mod [{| ac_attr := s_lbl; ac_export := ExTrue; ac_cfg_export := None; ac_group := []; ac_vis := 1;
+              ac_body := BParam {| pc_dt := TString 0 8 false; pc_dtdefault := PStr []; pc_unit := []; pc_readonly := true;
+                                   pc_const_cls := None; pc_const_cfg := None; pc_default := Some (PStr []);
+                                   pc_hw := Some (PStr [111; 107]%N) |} |}]].
+Definition all_active (s : state) : state := state3 (do_activate s None).
+Example C06_demo_read_narrowed :
+  built n_narrow = true /\
+  reply_eq_data (reply3 (do_read (all_active (state_of n_narrow)) s_m s_ulbl tok1)) (with_qualifiers (PStr [111; 107]%N)) = true /\
+  (let s1 := state3 (do_hw_set (all_active (state_of n_narrow)) s_m s_lbl str16) in
+   rerr_is (reply3 (do_read s1 s_m s_ulbl tok1)) (RExc ERange) = true /\
+   map u_body (upds3 (do_read s1 s_m s_ulbl tok1)) = [UE] /\
+   (* the same error again: error reply, no second update *)
+   upds3 (do_read (state3 (do_read s1 s_m s_ulbl tok1)) s_m s_ulbl tok1) = []).
+Proof. repeat split; vm_compute; reflexivity. Qed.
+
+(* non-vacuity of the automatic properties: the configuration claims Drivable / a feature / another implementation *)
+Definition s_drivable : str := [68; 114; 105; 118; 97; 98; 108; 101]%N.
+Definition s_readable : str := [82; 101; 97; 100; 97; 98; 108; 101]%N.
+Definition n_claims : list mcfg :=
+  [{| mc_name := s_m; mc_export := true; mc_group := []; mc_vis := 1; mc_impl := s_foo;
+      mc_mro := [(s_foo, false); (s_readable, false)]; mc_accs := [];
+      mc_cfg_auto := [(KIfaces, MPList [s_drivable]); (KFeatures, MPList [s_bar]); (KImpl, MPStr s_baz)] |}].
+Example C06_demo_claims_ignored :
+  match build n_claims with
+  | Ok s => match describe s with
+            | [(_, e)] => list_eqb str_eqb (md_ifaces e) [s_readable] && list_eqb str_eqb (md_features e) [] &&
+                          str_eqb (md_impl e) s_foo
+            | _ => false
+            end
+  | Err _ => false
+  end = true.
+Proof. vm_compute; reflexivity. Qed.
 
 Print Assumptions C06_source_facts.
 Print Assumptions C06_lists_exactly.
@@ -179,6 +272,8 @@ Print Assumptions C06_datainfo_same_object.
 Print Assumptions C06_flags_predict.
 Print Assumptions C06_constant_is_readonly.
 Print Assumptions C06_read_described.
+Print Assumptions C06_cached_values_converted.
+Print Assumptions C06_emitted_values_converted.
 Print Assumptions C06_interface_and_features.
 Print Assumptions C06_main_unit_substituted.
 Print Assumptions C06_refuted_nan_constant_described.
